@@ -47,14 +47,61 @@ def wfMacrosFrom (ms : List Macro) (pre : List String) : List Macro → Bool
   | [] => true
   | m :: r => wfStmt ms m.body && inScope pre (ms.map (·.name)) m.body && wfMacrosFrom ms (pre ++ [m.name]) r
 
+/-! ### builder-made registers, indices and counts (needed for: every rejection is a `JaqalError`) -/
+
+def isReg : Val → Bool
+  | .regF _ _ => true
+  | .regA _ _ => true
+  | .regS _ _ _ _ _ => true
+  | _ => false
+
+/-- an integer literal or a let constant with an integer value -/
+def intLike : Val → Bool
+  | .int _ => true
+  | .const _ (.int _) => true
+  | _ => false
+
+/-- a register as `register` / `map` statements build it: a fundamental register sized by a number or a let
+constant; an alias of such a register; a slice whose bounds (all three are filled in by the builder; start and step
+may be absent in hand-built objects) are integers or integer let constants. For these `int(reg.size)` raises nothing
+but `JaqalError`. -/
+def regBuilt : Val → Bool
+  | .regF _ size =>
+    (match size with
+     | .int _ => true
+     | .flt _ => true
+     | .const _ _ => true
+     | _ => false)
+  | .regA _ src => isReg src && regBuilt src
+  | .regS _ src a b c => isReg src && (a == .none || intLike a) && intLike b && (c == .none || intLike c)
+  | _ => false
+
+/-- a gate argument as the builder makes it, as far as error classes go: an indexed qubit indexes a register or a
+parameter by a number, a let constant or a parameter; registers are builder-made -/
+def goodVal : Val → Bool
+  | .qubit _ s i => isArrayLike s && (!isReg s || regBuilt s) && isIndexLike i
+  | v => !isReg v || regBuilt v
+
+mutual
+  /-- arguments are `goodVal`s; loop counts and iteration counts are numbers, let constants or parameters -/
+  def wfT : Stmt → Bool
+    | .gate _ _ args => args.all (fun a => goodVal a.2)
+    | .loop c b => isIndexLike c && wfT b
+    | .block _ _ it body => isIndexLike it && wfTList body
+  def wfTList : List Stmt → Bool
+    | [] => true
+    | s :: r => wfT s && wfTList r
+end
+
 /-- **WellFormed**: the circuits `CircuitBuilder` / the parser produce.
 (The builder also makes macro names and parameter names distinct and keeps macro names apart from native gate names;
-the theorems do not need that.) -/
+the theorems do not need that.) The last two conjuncts (`wfT`) are only used by `C04_total_class`. -/
 def WellFormed (c : Circuit) : Bool :=
   wfMacrosFrom c.macros [] c.macros && wfStmt c.macros c.body &&
   (match c.body with
    | .block false false _ _ => true
-   | _ => false)
+   | _ => false) &&
+  wfT c.body && c.macros.all (fun m => wfT m.body)
 
 mutual
   /-- no gate statement names a macro of `ms` -/
